@@ -3,8 +3,8 @@ import ast
 import struct
 
 from .. import bits as B_
-from ..astutil import dotted, method_call
-from ..cfg import cfg_of, fact_key, norm, walk_own
+from ..astutil import dotted, effective, method_call
+from ..cfg import canon_test, cfg_of, fact_key, norm, walk_own
 from ..consteval import Scope, fold_in
 from ..mutate import B, M
 from .c03 import toc_lookup_rules
@@ -199,8 +199,10 @@ def check(ctx):
              'cmd = data[0], block id = payload[0], status = payload[1]')
     for prop_name, setter in (('added', '_set_added'), ('started', '_set_started')):
         f = C.method(setter)
-        body = [norm(s) for s in f.node.body]
-        ctx.inst('R6', f, 'flag-callback', body == ['if %s != self._%s:\n    self.%s_cb.call(self, %s)' % (f.params[1], prop_name, prop_name, f.params[1]), 'self._%s = %s' % (prop_name, f.params[1])],
+        body = effective(f.node.body)
+        okfc = len(body) == 2 and isinstance(body[0], ast.If) and canon_test(body[0].test) == fact_key('%s != self._%s' % (f.params[1], prop_name))[0].join(['not ', '']) and \
+            [norm(x) for x in effective(body[0].body)] == ['self.%s_cb.call(self, %s)' % (prop_name, f.params[1])] and not body[0].orelse and norm(body[1]) == 'self._%s = %s' % (prop_name, f.params[1])
+        ctx.inst('R6', f, 'flag-callback', okfc,
                  '%s notifies on change and stores the flag' % setter)
 
     drops = [n for n in g.nodes if n.kind == 'stmt' and ((isinstance(n.ast, ast.Assign) and norm(n.ast.targets[0]) == 'self.log_blocks') or
@@ -248,7 +250,7 @@ def check(ctx):
     ctx.inst('R8', ini, 'fifo', len(q) == 1 and norm(q[0].value) == 'Queue()', 'samples are buffered in a FIFO Queue')
     lcb = S.method('_log_callback')
     puts = [c for c in walk_own(lcb.node) if method_call(c, 'put') and norm(c.func.value) == 'self._queue']
-    ctx.inst('R8', lcb, 'enqueue-each-sample', len(puts) == 1 and norm(puts[0].args[0]) == '(%s)' % ', '.join(lcb.params[1:4]) and len(lcb.node.body) <= 2, 'each decoded sample is enqueued once, as received')
+    ctx.inst('R8', lcb, 'enqueue-each-sample', len(puts) == 1 and norm(puts[0].args[0]) == '(%s)' % ', '.join(lcb.params[1:4]) and len(effective(lcb.node.body)) == 1, 'each decoded sample is enqueued once, as received')
     nx = S.method('__next__')
     gets = [c for c in walk_own(nx.node) if method_call(c, 'get') and norm(c.func.value) == 'self._queue']
     rets = [norm(s.value) for s in walk_own(nx.node) if isinstance(s, ast.Return) and s.value is not None]
@@ -258,7 +260,7 @@ def check(ctx):
     stop = [n for n in gn.nodes if n.kind == 'raise' and fact_key('data == self.DISCONNECT_EVENT', True) in gn.fact_keys_at(n)]
     ctx.inst('R8', nx, 'sentinel-ends-iteration', len(stop) == 1 and norm(stop[0].ast.exc) == 'StopIteration', 'the disconnect sentinel ends the iteration')
     dis = S.method('_disconnected')
-    body = [norm(s) for s in dis.node.body]
+    body = [norm(s) for s in effective(dis.node.body)]
     ctx.inst('R8', dis, 'sentinel-after-disconnect', body == ['self.disconnect()', 'self._queue.put(self.DISCONNECT_EVENT)'], 'on link loss: disconnect(), then the sentinel is queued; body %s' % body)
     con = S.method('connect')
     lp2 = [l for l in walk_own(con.node) if isinstance(l, ast.For)]
